@@ -109,6 +109,31 @@ fn run_history(cx: &Ctx, reg: &RegSetup, by_default: bool, t0: Option<u64>, ops:
                     }
                     Ok(Err(_)) => steps.push(format!("((i {}) (err))", idx)),
                 }
+                // the same issue in W3C form: the accumulator embedded in the credential's signature proof
+                let r = std::panic::catch_unwind(std::panic::AssertUnwindSafe(|| {
+                    let subject: anoncreds::data_types::w3c::credential_attributes::CredentialSubject = serde_json::from_value(json!({"name": "Alice", "age": 30})).unwrap();
+                    anoncreds::w3c::issuer::create_credential(
+                        &cx.cd.cred_def,
+                        &cx.cd.cred_def_priv,
+                        &cx.offer,
+                        &cx.req,
+                        subject,
+                        Some(CredentialRevocationConfig { reg_def: &reg.def, reg_def_private: &reg.def_priv, status_list: &list, registry_idx: *idx }),
+                        None,
+                    )
+                }));
+                match r {
+                    Err(_) => steps.push(format!("((i {}) (panic))", idx)),
+                    Ok(Ok(cred)) => match cred.get_credential_signature_proof().ok().and_then(|p| p.rev_reg.clone()) {
+                        Some(rr) => {
+                            let acc: anoncreds::cl::Accumulator = serde_json::from_value(serde_json::to_value(&rr).unwrap()["accum"].clone()).unwrap();
+                            let c = classes.class_of(acc);
+                            steps.push(format!("((i {}) (ok {}))", idx, c));
+                        }
+                        None => steps.push(format!("((i {}) (err))", idx)),
+                    },
+                    Ok(Err(_)) => steps.push(format!("((i {}) (err))", idx)),
+                }
             }
         }
     }
